@@ -104,9 +104,18 @@ def standaloneGetBatch (c : Case) (p : Policy) : Outcome × String :=
       (r.1, "fast:actor-fallback," ++ r.2)
   else raftCmd c.role c.dflt c.ovr (some p)
 
+/-- What the fast-path front ends do with the client's policy since fix "read fast paths honour
+    allow_client_override": a client-supplied policy is replaced by the server default when overrides are
+    disallowed (grpc_raft_service.rs `handle_client_read`; embedded_read_handle.rs `with_server_policy` /
+    `get_batch`). An absent / unknown policy stays absent. -/
+def effCli (c : Case) : Cli :=
+  match c.cli with
+  | .some p => if c.ovr then .some p else .some c.dflt
+  | other => other
+
 /-- grpc_raft_service.rs `handle_client_read`. -/
 def grpcRead (c : Case) : Outcome × String :=
-  match c.cli with
+  match effCli c with
   | .some .ev => standaloneGetBatch c .ev
   | .some .lease => standaloneGetBatch c .lease
   | .some .lin => let r := raftCmd c.role c.dflt c.ovr (some .lin); (r.1, "grpc:cmd," ++ r.2)
@@ -115,7 +124,7 @@ def grpcRead (c : Case) : Outcome × String :=
 
 /-- embedded_read_handle.rs `get_batch` (the API always carries a policy). -/
 def embRead (c : Case) : Outcome × String :=
-  match c.cli with
+  match effCli c with
   | .some .ev => (.localRead true .ev, "emb:direct-ev")
   | .some .lease =>
     if c.leaseValid then (.localRead true .lease, "emb:direct-lease")
@@ -159,7 +168,7 @@ def servedUnder (role : Role) (d : Policy) (o : Outcome) : Bool :=
   | .notLeader => d.strong && role != .leader
   | .na => true
 
-/-- The exact trigger of F14: override disallowed, the client names a policy different from the default,
+/-- The trigger of the (fixed) finding F14, kept to describe the regression cases: override disallowed, the client names a policy different from the default,
     and the request is one the fast paths answer without asking the Raft loop. -/
 def f14Trigger (c : Case) : Bool :=
   !c.ovr && (c.path == .grpc || c.path == .emb) &&
@@ -179,7 +188,7 @@ def monitorC13 (c : Case) (o : Outcome) : Option String :=
   if o == .na then none
   else if c.role != .leader && !c.leaseValid && !nonLeaderOk o then some "nonleader-serves-strong"
   else if !c.ovr && !servedUnder c.role c.dflt o then
-    (if f14Trigger c then some "f14-fast-path-ignores-override" else some "override-off-not-default")
+    some "override-off-not-default"
   else if c.ovr && !servedUnder c.role (clientPolicy c) o then some "override-on-client-policy-ignored"
   else none
 
